@@ -528,6 +528,66 @@ def cmdC17 (st : State) : Except String (State × List String) := do
     return (st', [s!"ok realGlyphs={n} pseudos={A.pseudos.length} lb={A.lb} phantom={A.phantom} missing={missing.length} classes={classes.size}", "done"])
   return (st', out ++ ["done"])
 
+/-- One alternative of a rule: keep the items in `kept`, renumber references. None if a reference points at an
+    omitted item (the compiler diagnoses that). -/
+def alternativeOf (r : RuleIR) (kept : List Nat) : Option RuleIR := do
+  let mut items : List ItemIR := []
+  for j in kept do
+    let it := r.items.getD j default
+    let out ← match it.out with
+      | some (.cls c (some sel)) => do let n ← Opt.newIndex kept (sel - 1); pure (some (OutSpec.cls c (some n)))
+      | some (.copy k) => do let n ← Opt.newIndex kept (k - 1); pure (some (OutSpec.copy n))
+      | o => pure o
+    let assoc ← it.assoc.mapM fun a => Opt.newIndex kept (a - 1)
+    items := items ++ [{ it with out := out, assoc := assoc }]
+  let caret := match r.caret with
+    | none => none
+    | some c =>
+      -- first kept item at or after the old position; else after the last item
+      match kept.find? (· ≥ c) with
+      | some j => (Opt.newIndex kept j).map (· - 1)
+      | none => some kept.length
+  return { items := items, caret := caret, opt := [], line := r.line, tree := none }
+
+/-- C07: replace every rule that has optional items by its alternatives (spec semantics), after checking that the
+    model of the compiler's range algorithm yields the same alternatives in the same order. -/
+def cmdExpand (st : State) : State × List String := Id.run do
+  let mut out : List String := []
+  let mut passes : List PassIRj := []
+  let mut nOpt := 0
+  let mut nAlt := 0
+  for pj in st.ir.passes do
+    let mut rules : List RuleIR := []
+    let mut ri := 0
+    for r in pj.rules do
+      match r.tree with
+      | none => rules := rules ++ [r]
+      | some tree =>
+        nOpt := nOpt + 1
+        let spec := (Opt.specAlternatives tree).filter (fun k => !k.isEmpty)
+        let (treeRanges, nItems) := Opt.rangesOf tree 0
+        if nItems != r.items.length then out := out ++ [s!"IRERR pass {pj.index} rule {ri}: tree has {nItems} items, rule has {r.items.length}"]
+        if treeRanges.mergeSort (fun a b => a.1 < b.1 ∨ (a.1 == b.1 ∧ a.2 ≥ b.2)) != r.opt.mergeSort (fun a b => a.1 < b.1 ∨ (a.1 == b.1 ∧ a.2 ≥ b.2)) then
+          out := out ++ [s!"IRERR pass {pj.index} rule {ri}: ranges {r.opt} do not describe the tree ({treeRanges})"]
+        -- The model must give the spec's alternatives in the spec's order; repeated alternatives (which the two
+        -- enumerate with different multiplicity when a group is wrapped in an identical group) are behaviourally
+        -- idempotent: a later copy of a rule can never fire. The list installed is the model's, so that rule counts
+        -- and indices are compared exactly with the font.
+        let mut use := spec
+        match Opt.modelAlternatives r.opt r.items.length with
+        | none => out := out ++ [s!"MODELDIFF pass {pj.index} rule {ri}: model reports overlapping ranges for a laminar tree"]
+        | some m =>
+          if m.eraseDups != spec.eraseDups then out := out ++ [s!"MODELDIFF pass {pj.index} rule {ri}: model {m} spec {spec}"]
+          else use := m
+        for kept in use do
+          match alternativeOf r kept with
+          | some a => rules := rules ++ [a]; nAlt := nAlt + 1
+          | none => out := out ++ [s!"REFOMITTED pass {pj.index} rule {ri} alternative {kept}"]
+      ri := ri + 1
+    passes := passes ++ [{ pj with rules := rules }]
+  let st' := { st with ir := { st.ir with passes := passes } }
+  (st', out ++ [s!"ok expanded optionalRules={nOpt} alternatives={nAlt}", "done"])
+
 def step (st : State) (toks : List String) : IO (State × List String) := do
   match toks with
   | [] => return (st, [])
@@ -623,6 +683,9 @@ def step (st : State) (toks : List String) : IO (State × List String) := do
     match cmdC17 st with
     | .ok (st', ls) => return (st', ls)
     | .error e => return (st, [s!"error {e}", "done"])
+  | ["expand"] =>
+    let (st', ls) := cmdExpand st
+    return (st', ls)
   | ["c06"] =>
     match cmdC06 st with
     | .ok ls => return (st, ls)
